@@ -56,6 +56,10 @@ func c05RoundTrip(t *fw.T, src []byte, o js.Options, indent int) (accepted bool)
 		t.Failf("re-parsed tree differs from the original (%s, %s): %s", how, optName(o), firstDiff(s2, s1))
 		return true
 	}
+	if d := jsTreeDiff(ast2, ast1); d != "" {
+		t.Failf("re-parsed tree differs from the original in a field String() does not show (%s, %s): %s (re-parsed versus original)", how, optName(o), d)
+		return true
+	}
 	if !bytes.Equal(out2, out1) {
 		t.Failf("printing the re-parsed tree does not reproduce the text (%s, %s): %s", how, optName(o), firstDiff(string(out2), string(out1)))
 		return true
@@ -66,7 +70,7 @@ func c05RoundTrip(t *fw.T, src []byte, o js.Options, indent int) (accepted bool)
 
 func c05Generated(t *fw.T) {
 	r := t.Rng
-	o := gen.JSOpts{}
+	o := gen.JSOpts{CtxNames: r.Intn(2) == 0}
 	if r.Intn(2) == 0 {
 		o.NoModuleItems = true
 	}
@@ -141,6 +145,7 @@ func c05Fuzz(t *fw.T) {
 
 var c05Probes = []string{
 	"a\n;b", "if(x)a\n;else b", "x=([c]=[0])=>c", "class A{static async\n(a){}}", "class b{static{var b=0;b}}", "x = `a\n  b`", "{ { x = 'a\\\n   b' } }", "for(var [a=b in c]=d;;);", "x=~y", "({[{m(){}}]:c})=>c",
+	"x={\"12\":1,'1.5':2,\"0\":3}", "x=()=>({m(){\"use strict\";a}})", "x=()=>{return{m(){\"use strict\"}}}", "for(async in c);",
 }
 
 func c05Probe(t *fw.T) {
@@ -164,7 +169,7 @@ func init() {
 		ID: "C05",
 		Rule: "case = one valid-UTF-8 input (a random spelling of a generated ES2022 program; a literal-stress snippet with line continuations, multi-line templates, numeric literals before '.', bang comments wrapped in 0-6 blocks; a corpus entry; a mutated corpus entry) x Options x printing path (JSString or JS through an outer parse.Indenter of width 0-8); " +
 			"for every accepted input the printed text must be accepted, its tree must equal the original after removing GroupExpr (compared through String()), and printing it again must reproduce the text byte for byte. non-trivial = accepted input; distinct by bytes",
-		Assume: []string{"tree identity is observed through AST.String() after removing GroupExpr nodes by reflection"},
+		Assume:   []string{"tree identity is observed through AST.String() after removing GroupExpr nodes by reflection"},
 		Required: []string{"roundtrips", "with.literals", "with.bang.comments", "fuzz.accepted", "probes"},
 		Streams: []fw.Stream{
 			{Name: "probes", Quick: len(c05Probes), Thorough: len(c05Probes), Run: c05Probe},
